@@ -8,6 +8,7 @@ The actual sleep is the kernel's: it is measured, not proved (see tools/props/c1
 import Verif.Model.Timeout
 import Verif.Generated.PollSrc
 import Verif.Inv.Wheel
+import Verif.Inv.WheelInv
 
 namespace Verif.Props.C12
 open Verif.Timeout
@@ -151,6 +152,35 @@ theorem wheel_wait_after_poll_zero_only_on_request (u : Option Nat) (w : Verif.W
   | some d =>
     have hlt := Verif.Inv.Wheel.nextDeadline_after_poll w now d hn
     cases u <;> simp [waitFromWheel, hn, waitFor, effTimeout, withSynthetic, nextTimeout, untilDeadline] at h ⊢ <;> omega
+
+open Verif.Loop in
+/-- over the WHOLE loop model: after every history (not aborted, `enable` within its contract) the limit of the wait is
+the deadline of the *current arming of a timer object that exists* — never of a cancelled, fired or replaced arming
+(`wheel_has_no_residue`); so the loop does not wake early for a timer that is no longer armed -/
+theorem loop_wait_limited_only_by_a_live_arming (ops : List Op) (hab : (run ops).aborted = false)
+    (hre : (run ops).reEnabled = false) (t now wt : Nat)
+    (h : waitFromWheel (some t) false (run ops).wheel now = some wt) :
+    ((run ops).wheel.heap = [] ∧ wt = t) ∨
+    ∃ e ∈ (run ops).wheel.heap, (∃ k src, alookup (run ops).srcs k = some src ∧ src.treg = some (e.tok, e.counter)) ∧
+      min t (e.deadline.toNat - now) ≤ wt := by
+  rcases wheel_wait_ge_min t _ now wt h with h0 | ⟨e, he, _, hmin⟩
+  · exact Or.inl h0
+  · exact Or.inr ⟨e, he, Verif.Inv.WheelInv.wheel_has_no_residue ops hab hre e he, hmin⟩
+
+open Verif.Loop in
+/-- non-vacuity of the whole-loop statement: a history with re-arming, cancel, re-enable and a removal that ends with
+one timer armed — the hypotheses hold and the wait is limited by that arming -/
+def armedHistory : List Op :=
+  [.c (.newTimer 1 (some 5)), .c (.insertd 1), .c (.newTimer 2 (some 50)), .c (.insert 2),
+   .script 1 1 { ret := .toInstant 20 },
+   .c (.advance 6), .dispatch,
+   .c (.disable 1), .c (.enable 1), .c (.setDeadline 1 (some 30)), .c (.update 1),
+   .c (.remove 2), .c (.advance 10), .dispatch]
+
+open Verif.Loop in
+example : (run armedHistory).aborted = false ∧ (run armedHistory).reEnabled = false ∧
+    waitFromWheel (some 100) false (run armedHistory).wheel 16 = some 14 ∧
+    waitFromWheel none false (run armedHistory).wheel 16 = some 14 := by decide +kernel
 
 /-- non-vacuity: a heap with three armings (not in deadline order), one of them already past -/
 example : waitFromWheel (some 50) false { heap := [⟨130, ⟨0, 0, 0⟩, 0⟩, ⟨110, ⟨1, 0, 0⟩, 1⟩, ⟨400, ⟨2, 0, 0⟩, 2⟩], counter := 3 } 100 = some 10 ∧
